@@ -66,9 +66,10 @@ class ProxyFile(object):
             seam.events.append(("write_fault", self._rel, len(keep)))
             raise InjectedOSError(f["errno"], os.strerror(f["errno"]), self._rel)
         n = self._real.write(data)
-        # write-through: nothing may sit in a user-space buffer that a late (garbage
-        # collected) close would flush at a nondeterministic moment
-        self._real.flush()
+        if getattr(self, "_write_through", True):
+            # write-through: nothing may sit in a user-space buffer that a late (garbage
+            # collected) close would flush at a nondeterministic moment
+            self._real.flush()
         seam.bytes_written += len(data)
         return n
 
@@ -171,6 +172,7 @@ class FsSeam(object):
         self.plan = None
         self.bytes_written = 0
         self.open_writers = []
+        self.zombies = []
         self._orig_open = None
         self._orig_io_open = None
 
@@ -200,6 +202,20 @@ class FsSeam(object):
         self.events.append(("open", rel, mode))
         px = ProxyFile(self, real, rel, mode)
         if any(c in mode for c in "wa+x"):
+            # who opened it?  A handle opened inside a third-party wrapper (gzip) is written through and
+            # swept; one opened by the code under test itself keeps its user-space buffer, so that a leak
+            # has the consequences it has in reality (see `sweep`).
+            import sys as _sys
+            fr, third_party = _sys._getframe(1), False
+            for _ in range(6):
+                if fr is None:
+                    break
+                fn = fr.f_code.co_filename
+                if fn.endswith("gzip.py") or "/PIL/" in fn or "/numpy/" in fn:
+                    third_party = True
+                    break
+                fr = fr.f_back
+            object.__setattr__(px, "_write_through", third_party)
             self.open_writers.append(px)
         return px
 
@@ -225,6 +241,13 @@ class FsSeam(object):
         for px in self.open_writers:
             real = object.__getattribute__(px, "_real")
             if not real.closed:
+                if not object.__getattribute__(px, "_write_through"):
+                    # leaked by the code under test itself: it becomes a zombie whose finalisation (the
+                    # flush of whatever it still buffers, into whatever the file is by then) is an event
+                    # the simulator schedules - see `finalise_zombies`
+                    self.zombies.append(px)
+                    self.events.append(("leaked", object.__getattribute__(px, "_rel")))
+                    continue
                 try:
                     real.close()
                 except Exception:
@@ -233,6 +256,22 @@ class FsSeam(object):
                 n += 1
         self.open_writers = []
         return n
+
+    def finalise_zombies(self):
+        """The garbage collector gets to the handles the code under test leaked: their stale buffers are
+        flushed now.  Returns the paths affected."""
+        out = []
+        for px in self.zombies:
+            real = object.__getattribute__(px, "_real")
+            if not real.closed:
+                try:
+                    real.close()
+                except Exception:
+                    pass
+                out.append(object.__getattribute__(px, "_rel"))
+                self.events.append(("zombie_finalised", out[-1]))
+        self.zombies = []
+        return out
 
     def arm(self, faults):
         self.plan = FaultPlan(faults)
